@@ -316,10 +316,15 @@ def unit(index: int, seed: int, tier: str):
             plans += [[3, api, k, exck] for k in range(1, st["data_events"] + 1)]
         plans.append([4, api, 0, 0])
         plans += [[5, api, k, exck] for exck in (0, 1) for k in range(1, st["data_events"] + 1)]
-    limit = 40 if tier == "quick" else 4000
+    limit = 40 if tier == "quick" else 2000
+    total_positions = len(plans)
     if len(plans) > limit:
         plans = rng.sample(plans, limit)
     for j, f in enumerate(plans):
         # same workload and data; fresh schedule / gate streams per fault run
         tp = Tape(base_seed + 1 + j, preset={"w": workload["w"], "d": workload["d"], "f": f})
-        yield tp, run(tp)
+        o = run(tp)
+        if j == 0:
+            o.count("units_all_fault_positions_enumerated" if total_positions <= limit else "units_fault_positions_sampled")
+            o.count("fault_positions_total", total_positions)
+        yield tp, o
